@@ -936,6 +936,24 @@ impl<'a> Collector<'a> {
       expr::IfElseCondition::Guard(p, c) => {
         self.pat(p);
         self.expr(c);
+        // scope escape: a name bound by the guard's pattern is in scope in the then-branch only (spec.md 6.10.2);
+        // the value of the else-branch is replaced by such a name (not otherwise mentioned there)
+        if let expr::IfElseOrBlock::Block(b) = i.e2.as_ref() {
+          if let Some(value) = &b.expression {
+            let l = value.loc();
+            if let (Some((a0, b0)), Some((s, en)), Some((bs, be))) =
+              (self.range(&l, "expr"), self.text.span(&l), self.text.span(&b.common.loc))
+            {
+              for (name, _) in p.bindings() {
+                let n = name.as_str(self.heap).to_string();
+                if !contains_word(&self.text.s[bs..be], &n) {
+                  self.push("unbound-var", "iflet-binder-in-else", s, en, n.clone(), vec![Splice { at: a0, del: b0 - a0, ins: vec![format!("Var({n})")] }]);
+                  break;
+                }
+              }
+            }
+          }
+        }
       }
     }
     self.block(&i.e1);
@@ -1260,6 +1278,23 @@ impl<'a> Collector<'a> {
     let Some((ma, _)) = self.range(&m.common.loc, "expr") else { return };
     if self.toks[ma] != format!("Match/{n}(") {
       return;
+    }
+    // scope escape: a name bound by one arm's pattern is the body of the next arm (which does not mention it)
+    for i in 0..n {
+      let j = (i + 1) % n;
+      let body = &m.cases[j].body;
+      let l = body.loc();
+      if let (Some((a0, b0)), Some((s, en)), Some((cs, ce))) =
+        (self.range(&l, "expr"), self.text.span(&l), self.text.span(&m.cases[j].loc))
+      {
+        for (name, _) in m.cases[i].pattern.bindings() {
+          let nm = name.as_str(self.heap).to_string();
+          if !contains_word(&self.text.s[cs..ce], &nm) {
+            self.push("unbound-var", "arm-binder-in-other-arm", s, en, nm.clone(), vec![Splice { at: a0, del: b0 - a0, ins: vec![format!("Var({nm})")] }]);
+            break;
+          }
+        }
+      }
     }
     // C03's operator (not a fault by construction, never part of C06's fault model): any one arm of
     // any match is deleted; the checker either rejects the mutant or the remaining arms must cover
@@ -1623,6 +1658,23 @@ fn visibility_sites(prog: &Program, skels: &HashMap<ModuleReference, (Vec<String
       }
     }
   }
+}
+
+/// `word` occurs in `text` as a whole identifier
+fn contains_word(text: &str, word: &str) -> bool {
+  let b = text.as_bytes();
+  let mut from = 0;
+  while let Some(k) = text[from..].find(word) {
+    let s = from + k;
+    let e = s + word.len();
+    let left = s == 0 || !(b[s - 1].is_ascii_alphanumeric() || b[s - 1] == b'_');
+    let right = e >= b.len() || !(b[e].is_ascii_alphanumeric() || b[e] == b'_');
+    if left && right {
+      return true;
+    }
+    from = e;
+  }
+  false
 }
 
 fn fresh_names(prog: &Program) -> (String, String, String) {
